@@ -33,7 +33,8 @@ InitSt == NoCursor
 
 \* ---- observations (one shape for every operation) ----
 \*  res   : "ok" | "rows" | "none" (fetchone at the end) | "noresult" | "err" | "descr"
-\*  rows  : positions of the delivered rows, in delivery order
+\*  rows  : positions of the delivered rows, in delivery order (recorded traces carry them run-length encoded, as the
+\*          maximal runs <<first, last>> of consecutive positions; FsCursorJudge!NormObs expands them again)
 \*  cols  : for each element of a delivered row, the column it came from (same for every row of one call)
 \*  names : dict rows: the keys, in order; pandas: the frame's columns; descr: the description names
 \*  rc    : cursor.rowcount read right after the call (-1 for None)
@@ -114,11 +115,17 @@ Steps(st, op, D) ==
                THEN {R(st, Obs("descr", <<>>, <<>>, Names(IF st.lay = 0 THEN "star0" ELSE "star1"), st.rc))} ELSE {})
 
 \* ---- operations offered in a state (generator vocabulary) ----
-CONSTANTS MinN, MaxN, MaxK, MaxA, ShapesUsed, ViaUsed, OpsUsed
+\* Steps above is written for ANY number of rows, fetch size and arraysize (plain arithmetic on n, idx, size, asz).  The
+\* bounded vocabulary below picks them as multiples of Scale: Scale = 1 gives the small results (0..MaxN rows); a large
+\* Scale that is not a round number (997) gives results of thousands of rows - larger than any batch / chunk / window an
+\* implementation may cut a result into - with the same abstract state graph.  fetchone still advances by ONE row, so the
+\* fetches of a behaviour start and end at every offset relative to such internal boundaries.
+CONSTANTS MinN, MaxN, MaxK, MaxA, ShapesUsed, ViaUsed, OpsUsed, Scale
 AllOps(st) ==
   IF st.cur = "none" THEN [k : {"open"}, dict : BOOLEAN]
-  ELSE [k : {"reshape"}] \cup [k : {"exec"}, n : MinN..MaxN, sh : ShapesUsed, via : ViaUsed] \cup [k : {"dml"}, a : 0..2] \cup [k : {"execfail", "one", "manydef", "all", "pandas"}]
-       \cup [k : {"many"}, size : 1..MaxK] \cup [k : {"asz"}, a : 1..MaxA]
+  ELSE [k : {"reshape"}] \cup [k : {"exec"}, n : {m * Scale : m \in MinN..MaxN}, sh : ShapesUsed, via : ViaUsed] \cup [k : {"dml"}, a : 0..2]
+       \cup [k : {"execfail", "one", "manydef", "all", "pandas"}]
+       \cup [k : {"many"}, size : {m * Scale : m \in 1..MaxK}] \cup [k : {"asz"}, a : {m * Scale : m \in 1..MaxA}]
        \cup (IF st.open THEN [k : {"descr"}] ELSE {})
 
 Ops(st) == {o \in AllOps(st) : o.k \in OpsUsed}
